@@ -36,7 +36,7 @@ def run(pid, replay=None):
                 raise vlib.Infra("Pool MC_off%d.cfg printed no schedule: %s" % (k, r.raw[-600:]))
             pick = sink[:4] + [sink[int(j * len(sink) / 5.0)] for j in range(1, 5)]
             directed += [{"hist": d["hist"], "max": d["max"], "violates": d["violates"], "fixoff": k} for d in pick]
-        n = 3000 if thorough else 300
+        n = 3000 if thorough else 200
         behs = [{"hist": d["hist"], "max": d.get("max", 1)} for d in directed]
         for mx in (1, 2):
             s = vlib.run_tlc(pid, "sim%d" % mx, SPEC, "Pool", "Sim%d.cfg" % mx, workers=1, timeout=900,
